@@ -520,6 +520,29 @@ def authStack (dec : Str → Option Str) : List ALayer → Option SObs
         | some r => some { r with layers := (o.ehClass, o.calls) :: r.layers }
       else some ⟨false, o.status, o.www, (o.ehClass, o.calls) :: rest.map fun _ => (0, [])⟩
 
+/-! ## the state of the response when the middleware is entered (round 7)
+
+A middleware registered earlier may already have started the response (`WriteHeader` / `Write` /
+`Flush`: streaming helpers, early flush) before calling `next`.  Neither BasicAuth nor KeyAuth looks
+at that: the decision who reaches the handler is the same; only what the client SEES differs —
+the status already on the wire stays, a challenge set afterwards is not sent.  `committed` = the
+status written before the middleware ran (`none`: response untouched). -/
+
+def commitB (committed : Option Nat) (o : BObs) : BObs :=
+  match committed with
+  | none => o
+  | some st => { o with status := st, www := false }
+
+def commitK (committed : Option Nat) (o : KObs) : KObs :=
+  match committed with
+  | none => o
+  | some st => { o with status := st }
+
+def commitS (committed : Option Nat) (o : SObs) : SObs :=
+  match committed with
+  | none => o
+  | some st => { o with status := st, www := [] }
+
 /-! ## wire -/
 open Wire
 
@@ -581,6 +604,11 @@ def pKeyBody : P Op := do
 def pLayerOp : P Op := do
   let mode ← nat
   if mode = 0 then pBasicBody else pKeyBody
+
+/-- `0` = response untouched, otherwise the status an earlier middleware has already written -/
+def pCommitted : P (Option Nat) := do
+  let n ← nat
+  pure (if n = 0 then none else some n)
 
 def pOp : P Op := do
   let mode ← nat
@@ -646,6 +674,8 @@ def encExts : List Ext → Option (List String)
 /-- `ctor`: 0 = `…WithConfig(config)`, 1 = the convenience constructor `BasicAuth(fn)` / `KeyAuth(fn)`
     (all other fields at their defaults), 2 / 3 = the same two with a nil validator (the constructor panics).
 
+    every line starts with `committed` (0 = response untouched when the middleware is entered, else the status
+    already written by an earlier middleware).
     basic: `0 ctor skip realm quoted method nhdr (name value)* dflt ntbl (u p outcome)*`  (the whole request head)
            →  `ran status www ncalls (u p)* wwwValue`
     key:   `1 ctor skip lookups scheme eh cont nsrc (npairs (name value)*)* dflt ntbl (key outcome)*`
@@ -656,16 +686,18 @@ def encExts : List Ext → Option (List String)
            request AS SENT): `3 n (0 <basic body> | 1 <key body>)*`
            →  `ran status n (ehClass ncalls (u p)*)* wwwValue` / `panic` / `config-panic` -/
 def runLine (line : String) : String :=
-  match parseLine pOp line with
+  match parseLine (do let c ← pCommitted; let op ← pOp; pure (c, op)) line with
   | none => "bad-op"
-  | some (.basic ctor skip realm quoted req dflt tbl) =>
+  | some (committed, .basic ctor skip realm quoted req dflt tbl) =>
     if ctor ≥ 2 then "config-panic"
     else
       let realm := if ctor = 1 then [] else realm
       match basicAuthReq skip (lookup2 dflt tbl) b64decode req with
       | none => "panic"
-      | some o => render [encBObs o, encStr (if o.www then wwwValue realm quoted else [])]
-  | some (.key ctor skip lookups scheme eh cont data dflt tbl) =>
+      | some o0 =>
+        let o := commitB committed o0
+        render [encBObs o, encStr (if o.www then wwwValue realm quoted else [])]
+  | some (committed, .key ctor skip lookups scheme eh cont data dflt tbl) =>
     if ctor ≥ 2 then "config-panic"
     else
       let cfg? : Option KCfg :=
@@ -679,8 +711,8 @@ def runLine (line : String) : String :=
         if cfg.sources.length ≠ data.length then "bad-op"
         else match keyAuthMW skip (lookup1 dflt tbl) cfg data with
           | none => "panic"
-          | some o => encKObs o
-  | some (.extractors lookups data) =>
+          | some o => encKObs (commitK committed o)
+  | some (_, .extractors lookups data) =>
     match createExtractors lookups [] with
     | none => "config-error"
     | some srcs =>
@@ -688,12 +720,12 @@ def runLine (line : String) : String :=
       else match encExts ((srcs.zip data).map fun sd => extract sd.1 sd.2) with
         | none => "panic"
         | some toks => render (toString srcs.length :: toks)
-  | some (.stack ops) =>
+  | some (committed, .stack ops) =>
     match layersOf ops with
     | none => "config-panic"
     | some ls =>
       match authStack b64decode ls with
       | none => "panic"
-      | some o => encSObs o
+      | some o => encSObs (commitS committed o)
 
 end C13
